@@ -22,14 +22,22 @@
                                token per OneAllAddrBal.Save record, entries of a record sorted (Go map order is free)
     dload <usemapcnt> <idx> <file hex>  -> keep | on 1 {K <idx> <uidx> <value> <ismap> <n> {<key8>:<vout>}* | N <idx> <uidx>}*
                                (load_map on the file bytes; N = nil record; keep = allBalances[idx] not assigned)
+    qkey    <tn:0|1> <sw|b58> <version> <program | hash160>  -> <OutScript hex | panic> <none | <idx> <payload>>
+                               (BtcAddr.OutScript() and the branch GetAllUnspent takes for ANY address value)
+    getallq <tn:0|1> <sw|b58> <version> <program | hash160>  -> total <value> {<txid>:<vout>:<value>:<height>:<cb>}*
+    loadr <u|c> <min> <usemapcnt> <abortAt> <chgAt> <chgMin> {<raw record>}*   like loadb, with a config change
+                               (CFG.AllBalances.MinValue = chgMin; common.Reset()) landing after record chgAt (0 = none)
+                                                                -> ok <min in force> | aborted <min in force> | panic
     sip <bytes>             -> <decimal ourHash>
     s2i <script>            -> none | <idx> <uidx> <payload>
 -/
 import GocoinV.Spec.Balances
 import GocoinV.Model.BalancesLoad
 import GocoinV.Model.BalancesDisk
+import GocoinV.Model.BalancesAddr
+import GocoinV.Model.BalancesCfg
 import GocoinV.Base.Proto
-open GocoinV GocoinV.Model.Balances GocoinV.Spec.Balances GocoinV.Model.BalancesLoad GocoinV.Model.BalancesDisk
+open GocoinV GocoinV.Model.Balances GocoinV.Spec.Balances GocoinV.Model.BalancesLoad GocoinV.Model.BalancesDisk GocoinV.Model.BalancesCfg
 
 def H : Bytes → Nat := ourHash
 
@@ -84,6 +92,15 @@ def parseAddr (idx payload : String) : Option Addr :=
     if i < 5 ∧ p.length = (if i < 3 then 20 else 32) then some { idx := i, payload := p } else none
   | _, _ => none
 
+/-- any address value; `Hash160` is a [20]byte in Go, so a base58 address needs exactly 20 bytes -/
+def parseQAddr (tn kind ver bytes : String) : Option (Bool × QAddr) :=
+  match (if tn == "0" then some false else if tn == "1" then some true else none), ver.toNat?, Hex.decode bytes with
+  | some tn, some v, some b =>
+    if kind == "sw" then some (tn, .segwit v b)
+    else if kind == "b58" ∧ b.length = 20 then some (tn, .base58 v b)
+    else none
+  | _, _, _ => none
+
 def KO : ScriptCompress.KeyOps := ScriptCompress.mathKeys
 
 def parserOf (f : String) : Option Parser :=
@@ -135,6 +152,23 @@ def step1 (s : State) (toks : List String) : State × String :=
       let l := projection s.cfg.min s.utxo a
       (s, " ".intercalate ([s!"total {sumValues l}"] ++ l.map unspStr))
     | none => bad
+  | ["qkey", tn, kind, ver, bytes] =>
+    match parseQAddr tn kind ver bytes with
+    | some (tn, q) =>
+      let scr := match q.outScript with
+        | some b => Hex.encode b
+        | none => "panic"
+      let key := match addrKey tn q with
+        | some a => s!"{a.idx} {Hex.encode a.payload}"
+        | none => "none"
+      (s, s!"{scr} {key}")
+    | none => bad
+  | ["getallq", tn, kind, ver, bytes] =>
+    match parseQAddr tn kind ver bytes with
+    | some (tn, q) =>
+      let l := getAllUnspentQ H tn s q
+      (s, " ".intercalate ([s!"total {totalQ H tn s q}"] ++ l.map unspStr))
+    | none => bad
   | ["sip", b] =>
     match Hex.decode b with
     | some b => (s, s!"{ourHash b}")
@@ -161,6 +195,15 @@ def step' (ss : State × Static) (toks : List String) : (State × Static) × Str
       | none => (ss, "panic")
       | some (s', st') => ((s', st'), if s'.on then "ok" else "aborted")
     | _, _, _, _, _ => bad
+  | "loadr" :: f :: mn :: um :: ab :: ca :: cm :: raws =>
+    match parserOf f, mn.toNat?, um.toNat?, ab.toNat?, ca.toNat?, cm.toNat?, raws.mapM Hex.decode with
+    | some P, some mn, some um, some ab, some ca, some cm, some raws =>
+      let tick : Nat → Bool := fun n => ab != 0 && n == ab
+      let chg : Nat → Option Nat := fun n => if ca != 0 && n == ca then some cm else none
+      match loadFromUtxoR P H tick chg s st raws mn um with
+      | none => (ss, "panic")
+      | some (s', st') => ((s', st'), (if s'.on then "ok " else "aborted ") ++ toString s'.cfg.min)
+    | _, _, _, _, _, _, _ => bad
   | ["dsave", idx] =>
     match idx.toNat? with
     | some i =>
